@@ -12,3 +12,38 @@ package condition
 //@   trusted abstract contract of the condition interface: evaluating a condition writes nothing and is a function of the condition and the request
 //@   modifies nothing
 //@   ensures result0 == condMatch(recv, req)
+
+// ---- C16: composite conditions are exactly !, && and || of their operands ----
+
+//@ func (*UnaryCond).Match
+//@   props C16
+//@   nopanic
+//@   requires uc != nil && (uc.op == parser.NOT ==> uc.cond != nil)
+//@   modifies nothing
+//@   ensures[not_negates_its_operand] uc.op == parser.NOT ==> result0 == !condMatch(uc.cond, req)
+//@   ensures[other_operators_never_match] uc.op != parser.NOT ==> !result0
+
+//@ func (*BinaryCond).Match
+//@   props C16
+//@   nopanic
+//@   requires bc != nil && ((bc.op == parser.LAND || bc.op == parser.LOR) ==> bc.lc != nil && bc.rc != nil)
+//@   modifies nothing
+//@   ensures[and_is_conjunction] bc.op == parser.LAND ==> result0 == (condMatch(bc.lc, req) && condMatch(bc.rc, req))
+//@   ensures[or_is_disjunction] bc.op == parser.LOR ==> result0 == (condMatch(bc.lc, req) || condMatch(bc.rc, req))
+//@   ensures[other_operators_never_match] bc.op != parser.LAND && bc.op != parser.LOR ==> !result0
+
+//@ func build
+//@   props C16
+//@   ensures[built_or_error] result1 == nil ==> result0 != nil
+
+//@ func buildUnary
+//@   props C16
+//@   ensures[keeps_operator_and_operand] result1 == nil ==> typeis(result0, "*UnaryCond") && unbox(result0, "*UnaryCond") != nil && unbox(result0, "*UnaryCond").op == node.Op && unbox(result0, "*UnaryCond").cond != nil
+
+//@ func buildBinary
+//@   props C16
+//@   ensures[keeps_operator_and_operands] result1 == nil ==> typeis(result0, "*BinaryCond") && unbox(result0, "*BinaryCond") != nil && unbox(result0, "*BinaryCond").op == node.Op && unbox(result0, "*BinaryCond").lc != nil && unbox(result0, "*BinaryCond").rc != nil
+
+//@ func buildPrimitive
+//@   props C16
+//@   ensures[built_or_error] result1 == nil ==> result0 != nil
